@@ -57,7 +57,9 @@ uint32_t inet_pton(uint32_t af, char* src, char* dst) {
       else return 0;
     }
     if (part != 4 || i == 16) return 0;
-    dst[0] = (char)out[0]; dst[1] = (char)out[1]; dst[2] = (char)out[2]; dst[3] = (char)out[3];
+    /* one 32-bit store (little-endian host): four byte stores into an uninitialised uint32_t are not folded back to a constant by CBMC's simplifier,
+     * which made every address built by libtins' static initialisers - and every exception test on them - symbolic */
+    *(uint32_t*)dst = (uint32_t)out[0] | ((uint32_t)out[1] << 8) | ((uint32_t)out[2] << 16) | ((uint32_t)out[3] << 24);
     return 1;
   }
   __CPROVER_assert(__CPROVER_r_ok(src, 1), "inet_pton: source string readable");
